@@ -35,7 +35,7 @@ class Contract:
         for k, v in kw.pop("loops", {}).items():
             self.loops[k] = {"inv": _labelled(v.get("inv", []), "inv"),
                              "modifies": v.get("modifies", []),
-                             "decreases": v.get("decreases"), "locals": v.get("locals", {}), "ghost_init": v.get("ghost_init", [])}
+                             "decreases": v.get("decreases"), "locals": v.get("locals", {}), "ghost_init": v.get("ghost_init", []), "ghost_step": v.get("ghost_step", [])}
         self.decreases = kw.pop("decreases", None)
         self.cycle = kw.pop("cycle", None)
         self.inline = kw.pop("inline", False)
@@ -50,7 +50,7 @@ class Contract:
         self.src_text = None
 
     def loop(self, k):
-        return self.loops.get(k, {"inv": [], "modifies": [], "decreases": None, "locals": {}, "ghost_init": []})
+        return self.loops.get(k, {"inv": [], "modifies": [], "decreases": None, "locals": {}, "ghost_init": [], "ghost_step": []})
 
 
 def _labelled(items, prefix):
